@@ -231,7 +231,9 @@ class TcpConnection():
         self._read()
 
         if self._recv_buffer:
+            self.lock.acquire()
             self._recv_data_stream += copy.copy(self._recv_buffer)
+            self.lock.release()
             self._recv_data_available.set()
             self._recv_buffer = b""
 
